@@ -116,9 +116,17 @@ def cover(F, R):
             n += 1
             touched = touched_with_closures(F, b)
             missing = [f for f in fields if (adt, f) not in touched]
-            R.check(not missing, 'B.C16.cover', '%s::%s' % (adt, m),
-                    '%s::%s does not reach the effect-holding field(s) %s: effects stored there miss this notification'
-                    % (adt, m, missing), detail={'struct': adt, 'method': m, 'fields': fields}, where=b.file)
+            # ... and on every path: some access to the field dominates every return (no early return skips the fan-out)
+            gated = []
+            for f in fields:
+                if (adt, f) in touched:
+                    tb = set(bb for bb, pl, k in b.all_places() if any(pr[0] == 'field' and len(pr) > 3 and pr[3] == adt and pr[2] == f for pr in pl['p']))
+                    if tb and not any(all(b.dominates(x, r) for r in b.return_blocks()) for x in tb):
+                        gated.append(f)
+            R.check(not missing and not gated, 'B.C16.cover', '%s::%s' % (adt, m),
+                    ('%s::%s does not reach the effect-holding field(s) %s: effects stored there miss this notification' % (adt, m, missing)) if missing else
+                    ('%s::%s can return before fanning out to %s: on that path the effects stored there miss this notification' % (adt, m, gated)),
+                    detail={'struct': adt, 'method': m, 'fields': fields}, where=b.file)
         if had:
             nstructs += 1
     R.floor('B.C16.cover', n, 14)
